@@ -114,6 +114,8 @@ impl Connect {
 
         let flags =
             ConnectFlags::from_bits(src.get_u8()).ok_or(DecodeError::ConnectReservedFlagSet)?;
+        // will qos value 3 is malformed even if will flag is not set [MQTT-3.1.2-12]
+        QoS::try_from((flags & ConnectFlags::WILL_QOS).bits() >> WILL_QOS_SHIFT)?;
         let keep_alive = src.get_u16();
 
         // reading properties
